@@ -224,24 +224,24 @@ func judgeC19(o *kit.Outcome, sc *c19sc, res *c19res, pin string) (violated bool
 		case sc.q.After(d.ts(d.max)):
 			qpos = "after-newest"
 		case sc.q.Equal(d.ts(res.want)):
-			qpos = "equal-to-a-state"
+			qpos = "equal-to-state"
 		}
-		ff := "first-file-present"
+		ff := "first-present"
 		if d.missing[d.first] {
-			ff = "first-file-missing"
+			ff = "first-missing"
 		}
 		gaps := "no-gaps"
 		if len(d.missing) > 1 || (len(d.missing) == 1 && !d.missing[d.first]) {
 			gaps = "gaps"
 		}
-		dir := "returned-later-state"
+		dir := "returned-later"
 		switch {
 		case !d.avail(got):
-			dir = "returned-unavailable-sequence"
+			dir = "returned-unavailable"
 		case got < res.want:
-			dir = "returned-earlier-state"
+			dir = "returned-earlier"
 		}
-		viol(fmt.Sprintf("C19/wrong-result/query-%s/%s/%s/%s", qpos, ff, gaps, dir),
+		viol(fmt.Sprintf("C19/wrong-result/%s/%s/%s/%s", qpos, ff, gaps, dir),
 			"returned sequence %d (timestamp %s), want %d (timestamp %s): the first available state at or after the query time, or the newest; %d requests: %s",
 			got, res.st.Timestamp.Format(time.RFC3339Nano), res.want, d.ts(res.want).Format(time.RFC3339Nano), tr.n, logTail(tr.log, 30))
 		return
